@@ -357,7 +357,11 @@ def make_tx(txk):
     locktime, sequence, version = txk
     with contracts.suspended():
         tx_in = TxIn(b"\x00" * 32, 0, sequence=sequence)
-        return Tx(version, [tx_in], [TxOut(1, Script())], locktime)
+        tx_ins = [tx_in]
+        # a sibling input of the opposite finality (CLTV/CSV look at the *evaluated* input's sequence only)
+        if (locktime + version) % 2 == 0:
+            tx_ins.append(TxIn(b"\x11" * 32, 1, sequence=0 if sequence == 0xFFFFFFFF else 0xFFFFFFFF))
+        return Tx(version, tx_ins, [TxOut(1, Script())], locktime)
 
 
 # ---- guards: byte patterns Script.evaluate special-cases by design ---------------------------
